@@ -738,7 +738,9 @@ pub fn xor(model: &mut Model, b1: VarId, b2: VarId) -> VarId {
 pub fn implies(model: &mut Model, b1: VarId, b2: VarId) {
     // b1 => b2 is equivalent to !b1 OR b2
     let not_b1 = model.bool_not(b1);
-    let _ = model.bool_or(&[not_b1, b2]);
+    let holds = model.bool_or(&[not_b1, b2]);
+    // the implication is a constraint: the disjunction must be true
+    model.props.equals(holds, Val::ValI(1));
 }
 
 // ============================================================================
@@ -865,8 +867,7 @@ pub fn cumulative(
                 model.props.int_le_reif(end_j, start_i, b2);
                 
                 // At least one must be true: b1 OR b2
-                let b_result = model.bool();
-                model.bool_or(&[b1, b2, b_result]);
+                let b_result = model.bool_or(&[b1, b2]);
                 
                 // Force the OR result to be true
                 model.props.equals(b_result, Val::int(1));
